@@ -1,5 +1,5 @@
 """C15 — in-place modes write exactly the formatted text, only where they should."""
-from . import cli
+from . import cli, clinative
 
 EXPLANATION = (
     "Bounded symbolic execution (MIR->SMT, z3) of the real CLI code (main .. write_back, see C14) against a symbolic file-system world. "
@@ -21,6 +21,8 @@ def run(S):
             S.inconclusive.append('structural obligation failed: %s %r' % (k, st.get('_mutators')))
     cli.require(S, ['C15 a file is written', 'C15 failure and later success', 'walk: hidden root directory', 'walk: eligible unreadable file'], found)
     cli.report(S, 'C15', found)
+    # the property stated on the real binary for a fixed family of worlds (contents as real text: byte order mark, CR LF, bystander files)
+    clinative.report(S, 'C15')
     S.assumptions += cli.ASSUMPTIONS
     S.assumptions.append('a second run being a no-op follows from the write-set obligation applied to the post-world under F(F(c)) = F(c) (C03); it is not run separately')
     return S.finish(level='other', explanation=EXPLANATION, trusted=cli.TRUSTED)
